@@ -197,11 +197,9 @@ impl NormalizingHasher {
         }
     }
 
-    pub(crate) fn done(mut self) -> Box<dyn DynDigest + Send> {
-        if self.text_mode && self.last_was_cr {
-            self.hasher.update(b"\n")
-        }
-
+    pub(crate) fn done(self) -> Box<dyn DynDigest + Send> {
+        // A CR at the very end of the data is a lone CR: like any other lone CR it is hashed
+        // unchanged (it has been hashed already when it was seen).
         self.hasher
     }
 
